@@ -83,6 +83,24 @@ pub fn run(ctx: &mut Ctx, dom: &str, a: &[Arg]) {
                 ),
             );
         }
+        "conveqc" => {
+            // the symbolic value is built directly as Custom(x), canonical or not
+            let (x, y) = (a[0].n() as u32, a[1].n() as u32);
+            let tx = TagType::Custom(x);
+            let iy = TagTypeId::from(y);
+            ctx.ln(
+                "eqc",
+                format!(
+                    "ty_id={} id_ty={} ty_u32={} u32_ty={} val={} id={}",
+                    tx == iy,
+                    iy == tx,
+                    tx == y,
+                    y == tx,
+                    tx.val(),
+                    u32::from(TagTypeId::from(tx))
+                ),
+            );
+        }
         "elfty" => {
             let raw = a[0].n() as u32;
             let mut b = Vec::new();
